@@ -1,7 +1,7 @@
 #!/usr/bin/env python3
 """Run the registered checks against the sub-agent-written breaking changes kept under /verif/seeded/<id>/.
 
-  selftest/seeded.py [--tests] [--all-checks] [--tier quick] [id ...]
+  selftest/seeded.py [--tests] [--all-checks] [--tier quick] [--dir seeded|preserving] [id ...]
 
 For each seeded change: copy /repo to a scratch directory, run the demonstration on the clean copy (must exit 0),
 apply patch.diff, run the demonstration again (must exit non-zero), optionally run the repository's test-suite, then run
@@ -44,11 +44,12 @@ def main(argv):
     run_tests = "--tests" in argv
     all_checks = "--all-checks" in argv
     tier = argv[argv.index("--tier") + 1] if "--tier" in argv else "quick"
-    sel = [a for a in argv if not a.startswith("--") and a not in ("quick", "thorough")]
+    base = argv[argv.index("--dir") + 1] if "--dir" in argv else "seeded"      # "preserving": rewrites that keep the property (checks must stay silent)
+    sel = [a for a in argv if not a.startswith("--") and a not in ("quick", "thorough", base)]
     manifest = json.load(open(os.path.join(ROOT, "MANIFEST.json")))
     all_ids = [c["property_id"] for c in manifest["checks"]]
     rows = []
-    for sdir in sorted(glob.glob(os.path.join(ROOT, "seeded", "*"))):
+    for sdir in sorted(glob.glob(os.path.join(ROOT, base, "*"))):
         name = os.path.basename(sdir)
         if not os.path.isdir(sdir) or (sel and name not in sel and not any(name.startswith(s) for s in sel)):
             continue
@@ -87,7 +88,7 @@ def main(argv):
         json.dump(res, open(os.path.join(sdir, "result.json"), "w"), indent=1, sort_keys=True)
         rows.append(res)
         print("%-8s %-10s demo clean/patched exit %s/%s  %s  caught_by=%s %s" % (
-            "CAUGHT" if res.get("caught_by_owner") else "MISSED", name, res.get("demo_clean_exit"), res.get("demo_patched_exit"),
+            ("CAUGHT" if res.get("caught_by_owner") else "MISSED") if base == "seeded" else ("ALARM" if res.get("caught_by") else "SILENT"), name, res.get("demo_clean_exit"), res.get("demo_patched_exit"),
             ("tests_pass=%s" % res.get("tests_pass")) if run_tests else "", res.get("caught_by"),
             res["checks"][meta["property"]]["keys"][:3] if "checks" in res else res.get("patch_error")))
         sys.stdout.flush()
